@@ -769,7 +769,7 @@ def generate(prop, run_seed, tier='quick', tolerate=frozenset()):
                 y != 'N' and isinstance(y, (int, float))
                 and not isinstance(y, bool) and y > 0) else y
                 for y in co['yields']]
-    if prop == 'C09' and crng.random() < .02:
+    if crng.random() < {'C09': .02, 'C08': .015}.get(prop, 0):
         # churn: many kill-then-restart cycles of waiting coroutines (each
         # leaves something behind in the processor's wait structure) next
         # to untouched waiters with scattered deadlines
@@ -802,7 +802,8 @@ def generate(prop, run_seed, tier='quick', tolerate=frozenset()):
             ops.append(['kill', drv])
         else:
             ops = [['start', c] for c in order] + [['frame', 1]]
-            for _ in range(crng.randint(33, 60)):
+            for _ in range(crng.randint(33, 60) if crng.random() < .6
+                           else crng.randint(101, 140)):
                 c = crng.randrange(nch)
                 ops += [['kill', c], ['start', c], ['frame', 0]]
         for _ in range(26):
